@@ -52,6 +52,14 @@ def gen_file(rng, errors=0.0, engine="postgresql", sch=None, prefix="Q"):
         bad = rng.random() < errors
         g = QGen(rng, sch, corrupt=(0.6 if bad and rng.random() < 0.6 else 0.0))
         sql, kind = g.statement()
+        if bad and rng.random() < 0.25:
+            # the same kind of error several times in one file (and package): a call of the same unknown function / a known
+            # function with the wrong number of arguments, at different places - each diagnostic has its own position
+            t = rng.choice(list(sch.tables))
+            c0 = rng.choice(sch.tables[t])
+            call = rng.choice(["nosuchfn(%d)" % rng.randint(1, 99), "nosuchfn(%s)" % c0, "lower(%s, %d)" % (c0, rng.randint(1, 9)), "random(%d)" % rng.randint(1, 99)])
+            sql, kind = rng.choice(["SELECT %s, %s FROM %s" % (c0, call, t), "SELECT %s FROM %s WHERE %s = %s" % (c0, t, c0, call),
+                                    "SELECT %s FROM %s WHERE %s IS NOT NULL AND %s > 0" % (c0, t, c0, call)]), "select"
         cmd = rng.choice([":one", ":many", ":exec", ":execrows"]) if kind not in ("select", "cte") else rng.choice([":one", ":many"])
         if bad and rng.random() < 0.3 and kind in ("insert", "update", "delete"):
             sql = sql.split(" RETURNING")[0]
